@@ -195,10 +195,24 @@ def c17_batch(binary, games, conv_alive, conv_lock):
     e = Engine(binary)
     res = []
     try:
+        prev_has_replies = True  # a fresh engine holds the start position
         for g in games:
             r = {"game": g, "verdict": "held"}
+            for pre in g.get("pre", []):
+                # what a GUI sends between two position commands of one session
+                if pre == "go" and not prev_has_replies:
+                    continue  # no GUI asks for a move in a finished game (and C04 excludes terminal positions)
+                if pre == "go":
+                    ask(e, "go depth 1", lambda x: x.startswith("bestmove"), 30.0)
+                elif pre == "ucinewgame":
+                    e.send("ucinewgame")
+                    settle(e, 30.0)
+                    prev_has_replies = True
+                else:
+                    ask(e, "isready", lambda x: x == "readyok", 30.0)
             cmd = position_cmd(g["root"], g["moves"])
             e.send(cmd)
+            prev_has_replies = bool(g["replies"])
             fen_line = ask(e, "d fen", lambda x: x.startswith("FEN: "), 20.0)
             if fen_line is None:
                 v, sig, text = crash_or_hang(e, f"'d fen' after a position command with {len(g['moves'].split())} moves")
@@ -311,6 +325,27 @@ def c17_stage(out, tier, seed):
                 elif r["verdict"] == "inconclusive":
                     out.add_inconclusive({"stage": f"position-{bname}", "what": r["what"]})
 
+    # sessions: one game presented with growing / shrinking / repeated prefixes in ONE process, with
+    # ucinewgame, isready and searches in between - as a GUI does while a game is being played
+    sess_lines = [x.split("\t") for x in oracle(harness, "sessions", ["--n", 1500 if thorough else 160, "--seed", seed]) if x.startswith("step\t")]
+    by_sid = {}
+    srng = random.Random(seed * 911 + 17)
+    for f in sess_lines:
+        pre = []
+        r = srng.random()
+        if r < 0.25:
+            pre.append("ucinewgame")
+        elif r < 0.45:
+            pre.append("go")
+        elif r < 0.55:
+            pre.extend(["go", "ucinewgame"])
+        elif r < 0.65:
+            pre.append("isready")
+        by_sid.setdefault(f[1], []).append({"root": f[2], "moves": f[3], "fens": [f[4], f[5], f[6]], "replies": f[7].split(),
+                                            "features": ["session_step"] + (["session_step_after_ucinewgame"] if "ucinewgame" in pre else []),
+                                            "pre": pre})
+    for i, (sid, steps) in enumerate(sorted(by_sid.items())):
+        batches.append((bins[i % len(bins)], steps))
     with ThreadPoolExecutor(max_workers=14) as ex:
         list(ex.map(work, batches))
     if not any(conv_alive[:3]):
